@@ -106,6 +106,14 @@ def data_params(draw, rep=None, structure=None, max_n=300):
 
 
 @st.composite
+def large_params(draw):
+    """33 000 - 80 000 samples (more than any internal row block), same argument space otherwise."""
+    case = draw(data_params())
+    case['n_samples'] = draw(st.integers(33_000, 80_000))
+    return case
+
+
+@st.composite
 def replay_case(draw):
     case = draw(data_params(max_n=120))
     case['np_seed2'] = (case['np_seed'] + 1 + draw(st.integers(0, 1000))) % 2**32
@@ -378,7 +386,7 @@ def oracle_csv(case, rec):
         raise Violation(f'last column is not a function of f30: needle {bad[0]} has labels {bad[1]} and {bad[2]}')
 
 
-ORACLES = {'C19/domain': oracle_domain, 'C19/shape': oracle_domain, 'C19/ensure-rep': oracle_ensure_rep,
+ORACLES = {'C19/large': oracle_domain, 'C19/domain': oracle_domain, 'C19/shape': oracle_domain, 'C19/ensure-rep': oracle_ensure_rep,
            'C19/replay': oracle_replay, 'C19/naive': oracle_naive, 'C19/csv': oracle_csv, 'C19/csv-big': oracle_csv}
 
 
@@ -390,6 +398,8 @@ def run(ctx):
     clauses = [
         Clause('C19/domain', lambda: data_params(), oracle_domain, quick=3200, thorough=288000, quick_shards=4),
         Clause('C19/ensure-rep', lambda: data_params(rep=True), rep_oracle, quick=2100, thorough=216000, quick_shards=3),
+        Clause('C19/large', large_params, lambda case, rec: (oracle_domain(case, rec), oracle_ensure_rep(case, rec, known_eq) if case['ensure_rep'] else None) and None,
+               quick=4, thorough=64, quick_shards=4, thorough_shards=16),
         Clause('C19/replay', replay_case, oracle_replay, quick=1200, thorough=144000, quick_shards=3),
         Clause('C19/naive', naive_case, oracle_naive, quick=400, thorough=72000, quick_shards=2),
         Clause('C19/csv', csv_case, oracle_csv, quick=160, thorough=28800, quick_shards=2),
